@@ -1181,7 +1181,9 @@ func stripComments(s string) string {
 
 // upperTypes writes the type keywords of a CREATE TABLE statement in upper case.
 func upperTypes(st string) string {
-	for _, ty := range []string{"integer", "text", "real", "blob", "varchar", "boolean", "datetime", "bigint", "numeric"} {
+	// Longer names first (" int" is a prefix of " integer", " date" of " datetime"); the list includes
+	// the names Atlas does not know (money, uuid, json: kept verbatim as user-defined types).
+	for _, ty := range []string{"integer", "bigint", "tinyint", "int", "text", "real", "double", "float", "blob", "varchar", "char", "boolean", "datetime", "date", "numeric", "decimal", "json", "uuid", "money"} {
 		st = strings.ReplaceAll(st, " "+ty, " "+strings.ToUpper(ty))
 	}
 	return st
